@@ -32,7 +32,11 @@ func patchOverlay(repo, patchFile string) (map[string][]byte, error) {
 	var files []string
 	for _, l := range strings.Split(string(b), "\n") {
 		if strings.HasPrefix(l, "+++ b/") {
-			files = append(files, strings.TrimSpace(strings.TrimPrefix(l, "+++ b/")))
+			f := strings.TrimPrefix(l, "+++ b/")
+			if i := strings.IndexAny(f, "\t"); i >= 0 {
+				f = f[:i] // "diff -u" appends a timestamp
+			}
+			files = append(files, strings.TrimSpace(f))
 		}
 	}
 	tmp, err := os.MkdirTemp("", "govpatch")
